@@ -27,7 +27,12 @@ pub fn gen_edit(rng: &mut Rng) -> (String, usize, usize, String) {
         _ => gen_text::soup(rng, 4),
     };
     let (lo, hi) = gen_text::char_range(rng, &text);
-    let ins = match rng.below(4) {
+    let ins = match rng.below(5) {
+        4 => {
+            // nothing but "white space" (for SPL or only for Unicode): the kind of insertion an editor sends all the time
+            const WS: &[&str] = &[" ", "\n", "\t", "\r\n", "\u{a0}", "\u{c}", "\u{b}", "\u{85}", "\u{2028}", "\u{3000}"];
+            (0..rng.range(1, 3)).map(|_| *rng.pick(WS)).collect::<String>()
+        }
         0 => String::new(),
         1 => gen_text::soup(rng, 3),
         2 => gen_text::lexeme(rng),
